@@ -4,7 +4,7 @@ CASE_LIMIT = {"C11": 15}   # seconds: these cases are function calls, not sessio
 EXACT = True
 RULE = ("op sequences (slice/pfx/grow/ensure/make/copy/append/swap/zero/less/hash/sort/ptr, and codec = the view written by the row-stream "
         "encoder and decoded into a fresh frame) over a pool of "
-        "frames and aliasing views for 11 column-type schemas (two with a custom-codec column); after every op every allocation and every "
+        "frames and aliasing views for 16 column-type schemas (every built-in key type compared and hashed, two with a custom-codec column); after every op every allocation and every "
         "frame (read through Index/Value/Interface) is dumped and compared with the Lean model; "
         "non-trivial = the sequence contains a mutating op on a view with non-zero offset or a reallocation; "
         "distinct = distinct case text")
@@ -17,6 +17,8 @@ SCHEMAS = [
     (["i64"], 1), (["i64", "i64"], 2), (["str", "i64"], 2), (["i32", "str", "st"], 2), (["i8", "pt"], 1),
     (["i16", "sl", "arr"], 1), (["bytes", "f64"], 2), (["str", "str", "i8"], 3), (["u16", "bool", "f32", "int"], 4),
     (["i64", "cc"], 1), (["str", "cc", "i32"], 1),      # a column with a registered custom codec
+    # every built-in key type appears as a compared and hashed column
+    (["u8", "u32"], 2), (["u64", "uint", "uptr"], 3), (["i32", "i16", "int"], 3), (["f32", "f64"], 2), (["bytes", "u8"], 2),
 ]
 
 
